@@ -576,6 +576,11 @@ def cfa_passthrough_rules(run, db):
                     return bool(defs_) and all(is_cfa(d_, depth + 1) for d_ in defs_)
                 return False
             ok = arg is not None and is_cfa(arg)
+            if not ok and not (arg is not None and isinstance(arg, ast.Constant)):
+                # the callee is run with its default layout, or with something computed: that is wrong only if the caller does not
+                # account for it (it may sort the planes out itself afterwards) -- what the caller returns for each layout is judged by
+                # the plane rules; this reading of the call says nothing
+                raise AnalysisError('%s: how the colour-filter layout reaches `%s` is not followed (it is not handed on as it is)' % (fi.qual, ast.unparse(c)[:80]))
             run.check(ok, 'C16.bayer', fi.qual, 'layout passed to %s' % callee.name, '%s passes its cfa on to %s' % (fi.name, callee.name),
                       '%s calls `%s` without its own cfa: the callee falls back to its default layout (rggb), so for bggr data the red and blue sites are exchanged' % (fi.name, ast.unparse(c)), fi.loc(c))
     if n < 2:
@@ -672,6 +677,8 @@ def bin_rules(run, db):
         detail = 'reductions: %s' % [(e['which'], e['axes']) for e in ev]
         if ok:
             lens = [dom.rat(x) for x in ev[0]['lengths']]
+            if any(l is None for l in lens):
+                raise AnalysisError("bindown(mode='%s'): the lengths of the axes that are reduced are not followed (the (s//f, f) view is built in a way this rule does not read)" % mode)
             ok = len(lens) == 2 and lens[0] == dom.rat(f0) and lens[1] == dom.rat(f1)
             detail = 'reduced axis lengths %s' % [l.key() if l is not None else None for l in lens]
             v = res[0].value
